@@ -1,5 +1,20 @@
 //@@ unit props=C08,C07,C01,C03,C06
 // Unit lazyrange: from a stream of cells to the returned range in the four readers, and the header-row option.
+//
+// Real text under contract (verbatim): Xlsx/Xlsb `worksheet_range_ref` (filter + pad loops), Xlsx/Xlsb `worksheet_range` (cell-by-cell
+// conversion), Xls/Ods `worksheet_range` (window of the stored range), `with_header_row` of the four readers, `From<DataRef> for Data`,
+// `Dimensions::len`, `Range::{empty,is_empty,start,end}`, `Cell::new`.  Assumed (see `// TRUSTED:` / range_api.rs): the contracts of
+// `Range::{new,from_sparse,range,width}` (proved / to be proved in unit range), the cell readers as ghost cell streams,
+// `worksheet_cells_reader`, derives on Data/DataRef/Range, String-keyed BTreeMap lookup, `String: From<&str>`, `Option::map_or`, `to_owned`.
+//
+// Structure of the argument for C08:
+//   lazy formats : worksheet_range_ref ensures  result == from_sparse(lazy_cells(option, stream))      [loops, per format]
+//                  header_row_lemma / default_row_lemma: what that range shows, in the words of the property  [proved once]
+//   eager formats: worksheet_range ensures      result == window_of(stored range, (n, start.1), end)    [per format]
+//                  eager_header_row_lemma: the same statements for the window
+//   option       : with_header_row sets the option and nothing else; option_history_*: it can be changed back
+//
+// Rules used beyond the README: R-mono (see VerifRs), reduced stand-in traits `Reader` / `ReaderRef` (+ a spec-only `inv`).
 #![allow(unused_imports, dead_code, unused_variables, unused_mut, unused_assignments, unexpected_cfgs)]
 use vstd::prelude::*;
 use std::cmp::{max, min};
@@ -747,7 +762,8 @@ where
 }
 
 // TRUSTED: documented behaviour of Option::map_or ("Returns the provided default result (if none), or applies a function to the contained value (if any)")
-pub assume_specification<T, U, F: FnOnce(T) -> U>[ Option::<T>::map_or ](o: Option<T>, default: U, f: F) -> (r: U)
+pub assume_specification<T, U, F>[ Option::<T>::map_or ](o: Option<T>, default: U, f: F) -> (r: U)
+    where F: FnOnce(T) -> U
     requires o is Some ==> f.requires((o->Some_0,)),
     ensures o is None ==> r == default, o is Some ==> f.ensures((o->Some_0,), r);
 
